@@ -271,6 +271,7 @@ impl Cx {
     /// call the library; a panic is a violation (clause `panic`)
     pub fn conv_entry(&mut self, input: &str, s: &Sett, e: Entry) -> Option<String> {
         self.conversions += 1;
+        arm_watchdog(input.len());
         match conv::convert(input, s, e) {
             Ok(o) => Some(o),
             Err(msg) => {
@@ -309,6 +310,24 @@ impl Cx {
 // worker
 
 static CASE_START_MS: AtomicU64 = AtomicU64::new(0);
+/// the stall cap that applies to the call in progress (ms)
+static CALL_CAP_MS: AtomicU64 = AtomicU64::new(20_000);
+/// the scope's base cap (ms)
+static SCOPE_CAP_MS: AtomicU64 = AtomicU64::new(20_000);
+static T0: std::sync::OnceLock<Instant> = std::sync::OnceLock::new();
+
+/// called before every library call: the watchdog measures one call, not a whole case;
+/// inputs above 4 kB get a cap that grows quadratically with their size (conversion time does)
+fn arm_watchdog(input_len: usize) {
+    if let Some(t0) = T0.get() {
+        if CASE_START_MS.load(Ordering::SeqCst) != 0 {
+            let kb = input_len as u64 / 1000;
+            let extra = if kb > 4 { kb * kb * 60 } else { 0 };
+            CALL_CAP_MS.store(SCOPE_CAP_MS.load(Ordering::SeqCst) + extra, Ordering::SeqCst);
+            CASE_START_MS.store(now_ms(t0), Ordering::SeqCst);
+        }
+    }
+}
 
 fn now_ms(t0: &Instant) -> u64 {
     t0.elapsed().as_millis() as u64 + 1
@@ -401,6 +420,7 @@ fn shrink(prop: &dyn Prop, scope: &str, case: &Case, clause: &str, kf: &Option<S
 pub fn worker(prop: &dyn Prop, tier: Tier, seed: u64, k: u64, n: u64, from_scope: usize, from_idx: u64) -> i32 {
     conv::install_quiet_panic_hook();
     let t0 = Instant::now();
+    let _ = T0.set(t0);
     let budget_ms = budget_s(tier) * 1000;
     let cur_path = format!("{}/w{}.cur", run_dir(prop.id()), k);
     let cur_file = std::fs::OpenOptions::new()
@@ -420,7 +440,8 @@ pub fn worker(prop: &dyn Prop, tier: Tier, seed: u64, k: u64, n: u64, from_scope
             let st = CASE_START_MS.load(Ordering::SeqCst);
             if st != 0 {
                 let el = now_ms(&t0).saturating_sub(st);
-                if el > cap_ms.load(Ordering::SeqCst) {
+                let _ = &cap_ms;
+                if el > CALL_CAP_MS.load(Ordering::SeqCst) {
                     let cur = current.lock().map(|c| c.clone()).unwrap_or_default();
                     let out = std::io::stdout();
                     let mut l = out.lock();
@@ -447,6 +468,8 @@ pub fn worker(prop: &dyn Prop, tier: Tier, seed: u64, k: u64, n: u64, from_scope
             continue;
         }
         cap_ms.store(prop.call_cap_s(&sc.name) * 1000, Ordering::SeqCst);
+        SCOPE_CAP_MS.store(prop.call_cap_s(&sc.name) * 1000, Ordering::SeqCst);
+        CALL_CAP_MS.store(prop.call_cap_s(&sc.name) * 1000, Ordering::SeqCst);
         let mut idx: u64 = 0;
         let mut done: u64 = 0;
         let mut skipped_budget: u64 = 0;
